@@ -2,6 +2,8 @@
 setters/getters, Packet::set_token and the raw option accessors - each with a whole-view
 postcondition (the touched field gets the new value, every other field is unchanged).
 C01 (any order of API calls), C06/C19 (raw accessors under the typed ones)."""
+import re
+
 from vf.unit import Unit
 from . import common
 
@@ -115,49 +117,24 @@ def populate(u, extra_items=None, extra_packet_fns=(), extra_spec=''):
     common.common_rules(u)
     common.header_contracts(u, PROPS)
     u.rule('R12:unreachable', r'_ => unreachable!\(\),',
-           '_ => { proof { let x = self.ver_type_tkl; assert((0x30 & x) >> 4 <= 3) by (bit_vector); } unreachable!() }', 1)
+           '_ => { unreachable!() }', 1)
 
     # ---- header bit fields -------------------------------------------------------------------
     u.contract((H, 'set_version'), '''        requires v < 4
         ensures ver_of(final(self).ver_type_tkl) == v, type_bits_of(final(self).ver_type_tkl) == type_bits_of(old(self).ver_type_tkl),
             tkl_of(final(self).ver_type_tkl) == tkl_of(old(self).ver_type_tkl),
             final(self).code == old(self).code, final(self).message_id == old(self).message_id''', props=['C01', 'C07'])
-    u.after((H, 'set_version'), r'let type_tkl = (?:self\.ver_type_tkl & )?(\w+)(?: & self\.ver_type_tkl)?;', '''        proof {
-            let x = self.ver_type_tkl;
-            assert((\\g<1> & x) == (x & \\g<1>)) by (bit_vector);
-            assert forall|a: u8, b: u8| #[trigger] (a | b) == (b | a) by { assert((a | b) == (b | a)) by (bit_vector); }
-            assert(v < 4 ==> (v << 6 | (\\g<1> & x)) / 64 == v) by (bit_vector);
-            assert(v < 4 ==> ((v << 6 | (\\g<1> & x)) / 16) % 4 == (x / 16) % 4) by (bit_vector);
-            assert(v < 4 ==> (v << 6 | (\\g<1> & x)) % 16 == x % 16) by (bit_vector);
-        }''', expand=True)
     u.contract((H, 'get_version'), '        ensures r == ver_of(self.ver_type_tkl)', props=['C01', 'C07'])
-    u.body_start((H, 'get_version'), '        proof { let x = self.ver_type_tkl; assert(x >> 6 == x / 64) by (bit_vector); }')
     u.contract((H, 'get_type'), '        ensures r == type_of_bits(type_bits_of(self.ver_type_tkl))', props=['C01', 'C05', 'C07'])
-    u.body_start((H, 'get_type'), '        proof { let x = self.ver_type_tkl; assert((0x30 & x) >> 4 == (x / 16) % 4) by (bit_vector); }')
     u.contract((H, 'set_type'), '''        ensures type_bits_of(final(self).ver_type_tkl) == bits_of_type(t), ver_of(final(self).ver_type_tkl) == ver_of(old(self).ver_type_tkl),
             tkl_of(final(self).ver_type_tkl) == tkl_of(old(self).ver_type_tkl),
             final(self).code == old(self).code, final(self).message_id == old(self).message_id''', props=['C01', 'C05', 'C07'])
-    u.after((H, 'set_type'), r'let ver_tkl = (?:self\.ver_type_tkl & )?(\w+)(?: & self\.ver_type_tkl)?;', '''        proof {
-            let x = self.ver_type_tkl; let tn8: u8 = tn;
-            assert((\\g<1> & x) == (x & \\g<1>)) by (bit_vector);
-            assert forall|a: u8, b: u8| #[trigger] (a | b) == (b | a) by { assert((a | b) == (b | a)) by (bit_vector); }
-            assert(tn8 <= 3 ==> ((tn8 << 4 | (\\g<1> & x)) / 16) % 4 == tn8) by (bit_vector);
-            assert(tn8 <= 3 ==> (tn8 << 4 | (\\g<1> & x)) / 64 == x / 64) by (bit_vector);
-            assert(tn8 <= 3 ==> (tn8 << 4 | (\\g<1> & x)) % 16 == x % 16) by (bit_vector);
-        }''', expand=True)
     u.contract((H, 'set_token_length'), '''        requires tkl < 16
         ensures tkl_of(final(self).ver_type_tkl) == tkl, ver_of(final(self).ver_type_tkl) == ver_of(old(self).ver_type_tkl),
             type_bits_of(final(self).ver_type_tkl) == type_bits_of(old(self).ver_type_tkl),
             final(self).code == old(self).code, final(self).message_id == old(self).message_id''', props=['C01', 'C07'])
-    u.body_start((H, 'set_token_length'), '        proof { assert(tkl < 16 ==> 0xF0 & tkl == 0) by (bit_vector); }')
-    u.after((H, 'set_token_length'), r'let ver_type = (?:self\.ver_type_tkl & )?(\w+)(?: & self\.ver_type_tkl)?;', '''        proof {
-            let x = self.ver_type_tkl;
-            assert((\\g<1> & x) == (x & \\g<1>)) by (bit_vector);
-            assert forall|a: u8, b: u8| #[trigger] (a | b) == (b | a) by { assert((a | b) == (b | a)) by (bit_vector); }
-            assert(tkl < 16 ==> (tkl | (\\g<1> & x)) % 16 == tkl) by (bit_vector);
-            assert(tkl < 16 ==> (tkl | (\\g<1> & x)) / 64 == x / 64) by (bit_vector);
-            assert(tkl < 16 ==> ((tkl | (\\g<1> & x)) / 16) % 4 == (x / 16) % 4) by (bit_vector);
-        }''', expand=True)
+
+    common.header_bit_hints(u, H, fns=('set_version', 'get_version', 'set_type', 'get_type', 'set_token_length'))
 
     # ---- token ---------------------------------------------------------------------------------
     u.contract((P, 'set_token'), '''        requires token@.len() <= 8
